@@ -144,6 +144,7 @@ def _pure_str(q):
 
 def register(reg):
     reg.add(MergeConfig)
+    reg.add(CoalesceExceptions)
     for q in ("_utils.qualified_name", "_utils.callable_name", "_utils.format_component_name",
               "_component.ComponentContext._format_resource_description"):
         reg.add(_pure_str(q))
@@ -151,3 +152,45 @@ def register(reg):
                                         "(AttributeError/TypeError from .copy()/.items()) before writing any object that existed")
     reg.assumptions_text["A-DIAG"] = ("qualified_name, callable_name, format_component_name, _format_resource_description "
                                       "(diagnostics only) are total, side-effect free and return a string")
+
+
+class CoalesceExceptions(FnSpec):
+    """C07: coalesce_exceptions(): the block's outcome passes through unchanged, except that an ExceptionGroup with exactly one member that is
+    not itself an ExceptionGroup is replaced by that member (the same object, its own cause kept).  This is the contract the exit-stack model
+    (lib_anyio.k_coalesce) applies wherever the context manager is used."""
+    qual = "_utils.coalesce_exceptions"
+    properties = ("C07", "C05")
+    modifies = "rely"
+    suspends = True
+    may_raise = True
+    check_guarantee = False
+
+    def requires(self, F):
+        return []
+
+    def init_ghost(self, eng, st):
+        st.ghost["thrown"] = None
+        st.ghost["resumed"] = False
+
+    def after_await(self, eng, st_before, st_after, awaited, result, exc, anchor):
+        st_after.ghost = dict(st_after.ghost)
+        st_after.ghost["resumed"] = True
+        if exc is not None:
+            st_after.ghost["thrown"] = exc.t
+
+    def local_ensures(self, F):
+        g = F.new_st.ghost
+        return [("returns-normally-only-when-the-block-did", z3.BoolVal(g["resumed"] and g["thrown"] is None))]
+
+    def local_raises(self, F):
+        g = F.new_st.ghost
+        x = g["thrown"]
+        if x is None:
+            return [("raises-only-what-the-block-raised", z3.BoolVal(False))]
+        H = F.new
+        e = Val.a(x)
+        is_eg = subcls(H.fld("__class__", e), con("ExceptionGroup"))
+        lst = Val.a(H.fld("exceptions", e))
+        m0 = H.l_item(lst, 0)
+        single = z3.And(is_eg, H.l_len(lst) == 1, z3.Not(z3.And(Val.is_ref(m0), subcls(H.fld("__class__", Val.a(m0)), con("ExceptionGroup")))))
+        return [("single-member-group-is-replaced-by-its-member-everything-else-passes-unchanged", F.exc.t == z3.If(single, m0, x))]
